@@ -783,7 +783,13 @@ def _any_sym(*xs):
 def np_zeros(shape, dtype=None, order="C"):
     if not isinstance(shape, (tuple, list)):
         shape = (shape,)
-    sort = INT if dtype is not None and np.issubdtype(np.dtype(dtype) if not isinstance(dtype, type) or issubclass(dtype, np.generic) else np.dtype(dtype), np.integer) else REAL
+    sort = REAL
+    if dtype is not None:
+        try:
+            dt = np.dtype(dtype)
+            sort = BOOL if dt == np.dtype(bool) else (INT if np.issubdtype(dt, np.integer) else REAL)
+        except TypeError:
+            sort = REAL
     return SArr.full(tuple(shape), tm.const(Fraction(0), sort), sort)
 
 
@@ -936,18 +942,20 @@ def np_sum(A, axis=None, **kw):
     keep = [k for k in range(A.ndim) if k not in axes]
     ph = [tm.var("ph!%d" % k, INT) for k in range(A.ndim)]
     body = A._get(tuple(ph))
-    vs, _, _ = tm.free_symbols([body])
-    free = sorted(n for n in vs if not n.startswith("ph!"))
-    fvars = [tm.var(n, vs[n]) for n in free]
-    name = "bigsum!%x!%s" % (body._h & 0xffffffffffff, "_".join(str(a) for a in axes))
     bounds = [_t(A._shape[a]) for a in axes]
-    bfree = sorted(set(itertools.chain.from_iterable(tm.free_symbols([b])[0].items() for b in bounds)))
-    bterms = [tm.var(n, s) for n, s in bfree if n not in free]
+    # free variables in order of first occurrence (deterministic for structurally equal summands), renamed canonically
+    order = []
+    for n in tm.subterms(tm.app("bs!tuple", INT, body, *bounds)):
+        if n.op == "var" and not n.args[0].startswith("ph!") and n not in order:
+            order.append(n)
+    canon = {v: tm.var("fv!%d" % k, v.sort) for k, v in enumerate(order)}
+    nbody = tm.substitute(tm.app("bs!tuple", INT, body, *bounds), canon)
+    name = "bigsum!%x!%s" % (nbody._h & 0xffffffffffff, "_".join(str(a) for a in axes))
     ic().axiom("sum over a symbolic axis is an uninterpreted big operator (same summand => same symbol)")
     srt = REAL if A.sort == REAL else INT
 
-    def get(idx, keep=keep):
-        return tm.app(name, srt, *idx, *fvars, *bterms)
+    def get(idx, keep=keep, order=order):
+        return tm.app(name, srt, *idx, *order)
     out = SArr(tuple(A._shape[k] for k in keep), get, srt)
     out.bigsum = dict(name=name, of=A, axes=axes, keep=keep)
     return out
